@@ -64,7 +64,9 @@ func switchFt(desc *thrift_reflection.TypeDescriptor) FieldMaskType {
 		default:
 			return FtScalar // NOTICE: mean fieldmask exist and is all
 		}
-	} else if desc.IsStruct() {
+	} else if desc.IsStruct() || desc.IsUnion() || desc.IsException() {
+		// unions and exceptions are struct-likes: without this a field of such a type could not
+		// be selected (white list) or rejected (black list) at all
 		return FtStruct
 	} else if desc.IsEnum() {
 		return FtScalar
